@@ -8,6 +8,7 @@ import (
 	"runtime"
 	"slices"
 	"strings"
+	"sync/atomic"
 	"testing"
 	"testing/cryptotest"
 	"testing/synctest"
@@ -174,6 +175,9 @@ type HostilePlan struct {
 	WSplit    []int      `json:"wsplit,omitempty"`
 	NoKeys    bool       `json:"no_keys,omitempty"`
 	RawFirst  []byte     `json:"raw_first,omitempty"` // replace the first record by these bytes entirely
+	// Churn > 0: another kind of run - that many well-behaved connections, one
+	// after the other, under one long-lived context (see executeChurn).
+	Churn int `json:"churn,omitempty"`
 }
 
 type HMut struct {
@@ -385,7 +389,66 @@ func hostileBytes(seed uint64, side string, items []HRec, b *built, p *ScriptPla
 	return out
 }
 
+// executeChurn: many connections come and go under ONE long-lived context (a
+// server's base context). What a finished connection leaves behind must not
+// grow with the number of connections served: after they are closed and
+// dropped, their transports are collectable.
+func executeChurn(t *testing.T, prop string, seed uint64, p *HostilePlan) *core.Result {
+	res := &core.Result{Evals: 1}
+	cryptotest.SetGlobalRandom(t, seed)
+	b, err := buildScript(seed, &p.Base)
+	if err != nil {
+		if err == errSkip {
+			res.Probe("scenario_skipped")
+			return res
+		}
+		res.Harness = "buildScript: " + err.Error()
+		return res
+	}
+	ctx, cancel := context.WithCancel(context.Background())
+	defer cancel()
+	var released atomic.Int64
+	n := p.Churn
+	pk, msg, site := core.Guard(func() {
+		for i := 0; i < n; i++ {
+			sc := simnet.NewScript(append(append([]byte(nil), b.outerRec...), echbox.Record(23, 0x0303, []byte("data"))...))
+			runtime.SetFinalizer(sc, func(*simnet.ScriptConn) { released.Add(1) })
+			conn, err := ech.NewConn(ctx, sc, keyOptions(b.keys)...)
+			if err != nil {
+				continue
+			}
+			buf := make([]byte, 4096)
+			for {
+				if _, err := conn.Read(buf); err != nil {
+					break
+				}
+			}
+			conn.Close()
+		}
+	})
+	if pk {
+		res.Fail(prop, "panic", site+": "+normMsg(msg), "%d connections under one context", n)
+		return res
+	}
+	for i := 0; i < 20 && released.Load() < int64(n)/2; i++ {
+		runtime.GC()
+		time.Sleep(2 * time.Millisecond)
+	}
+	if got := released.Load(); got < int64(n)/4 {
+		res.Fail(prop, "balloon", "finished connections stay reachable while the context they were accepted under lives", "%d connections accepted, read to the end and closed under one long-lived context: the transports of only %d of them could be collected afterwards", n, got)
+	}
+	res.Probe("connections_churned_under_one_context")
+	res.NonTrivial = true
+	res.Arbitrated = true
+	res.Sig = core.SigOf("churn", fmt.Sprint(p.Base.NoECH), fmt.Sprint(p.Base.Grease), fmt.Sprint(n))
+	res.Sample = map[string]any{"kind": "churn", "connections": n}
+	return res
+}
+
 func executeHostile(t *testing.T, prop string, seed uint64, p *HostilePlan) *core.Result {
+	if p.Churn > 0 {
+		return executeChurn(t, prop, seed, p)
+	}
 	res := &core.Result{}
 	cryptotest.SetGlobalRandom(t, seed)
 	var b *built
@@ -651,6 +714,11 @@ func genC08(seed uint64, idx int) *Plan {
 			h.Tail = append(h.Tail, HRec{Kind: "rec", Type: 22, Len: 16384})
 		}
 		h.Back, h.Chunks = nil, nil
+		return &Plan{Kind: "hostile", Seed: seed, Hostile: h}
+	}
+	if idx%50 == 21 {
+		h.Churn = []int{200, 400}[r.IntN(2)]
+		h.Base.Mutations, h.Muts, h.Tail, h.Back = nil, nil, nil, nil
 		return &Plan{Kind: "hostile", Seed: seed, Hostile: h}
 	}
 	if idx%25 == 17 && !b.NoECH && !b.Grease {
